@@ -214,6 +214,12 @@ def agreement_encodings():
         ("np.int8 first, then ints differing by 256", enc_first_then([np.int8(1), np.int8(2)], [1, 257, 513])),
         ("1-element arrays: short string first, then longer", wrap(lambda v: np.array([v]), lambda v: np.array([v]),
                                                                    enc_first_then(["c1", "c2"], ["c10", "c11", "c1"]))),
+        ("strings that are the same number but different text", enc_multiclass(["1", "01", "1.0", "1e0", "+1"])),
+        ("strings that read as special floats", enc_multiclass(["nan", "inf", "-inf", "NaN"])),
+        ("long digit strings differing in the last digit", enc_multiclass(["12345678901234567890", "12345678901234567891", "12345678901234567892"])),
+        ("object-dtype array vs numeric array", wrap(lambda v: np.array([v], dtype=object), lambda v: np.array([v]), enc_scalar({0: 3, 1: 8}))),
+        ("numeric array vs object-dtype Series", wrap(lambda v: np.array([v]), lambda v: pd.Series([v], dtype=object), enc_scalar({0: 3, 1: 8}))),
+        ("object-dtype arrays of mixed classes", wrap(lambda v: np.array([v], dtype=object), lambda v: np.array([v], dtype=object), enc_multiclass([1, "1", 1.5]))),
         ("1-element lists", wrap(lambda v: [v], lambda v: [v])),
         ("1-element tuples of strings", wrap(lambda v: (v,), lambda v: (v,), enc_scalar({0: "x", 1: "y"}))),
         ("1-element ndarrays", wrap(lambda v: np.array([v]), lambda v: np.array([v]))),
